@@ -41,6 +41,14 @@ impl Avx2 {
     }
 }
 
+#[cfg(feature = "verif-hooks")]
+impl Avx2 {
+    /// Verification builds only: engine over the given tables.
+    pub fn verif_with_tables(mul128: &'static Mul128, skew: &'static Skew) -> Self {
+        Self { mul128, skew }
+    }
+}
+
 impl Engine for Avx2 {
     fn fft(
         &self,
@@ -142,6 +150,9 @@ impl From<&Multiply128lutT> for LutAvx2 {
 impl Avx2 {
     #[target_feature(enable = "avx2")]
     unsafe fn mul_avx2(&self, x: &mut [[u8; 64]], log_m: GfElement) {
+        #[cfg(feature = "verif-hooks")]
+        crate::verif_hooks::trace_isa(crate::verif_hooks::ISA_AVX2);
+
         let lut = &self.mul128[log_m as usize];
         let lut_avx2 = LutAvx2::from(lut);
 
@@ -292,6 +303,9 @@ impl Avx2 {
         truncated_size: usize,
         skew_delta: usize,
     ) {
+        #[cfg(feature = "verif-hooks")]
+        crate::verif_hooks::trace_isa(crate::verif_hooks::ISA_AVX2);
+
         // Drop unsafe privileges
         self.fft_private(data, pos, size, truncated_size, skew_delta);
     }
@@ -435,6 +449,9 @@ impl Avx2 {
         truncated_size: usize,
         skew_delta: usize,
     ) {
+        #[cfg(feature = "verif-hooks")]
+        crate::verif_hooks::trace_isa(crate::verif_hooks::ISA_AVX2);
+
         // Drop unsafe privileges
         self.ifft_private(data, pos, size, truncated_size, skew_delta);
     }
@@ -497,6 +514,9 @@ impl Avx2 {
 impl Avx2 {
     #[target_feature(enable = "avx2")]
     unsafe fn eval_poly_avx2(erasures: &mut [GfElement; GF_ORDER], truncated_size: usize) {
+        #[cfg(feature = "verif-hooks")]
+        crate::verif_hooks::trace_isa(crate::verif_hooks::ISA_AVX2);
+
         utils::eval_poly(erasures, truncated_size);
     }
 }
